@@ -221,7 +221,7 @@ class Check:
                 fh.write(cfg_text)
         if cfg is None:
             cfg = module + ".cfg"
-        w = str(workers if workers else min(16, os.cpu_count() or 4))
+        w = str(workers if workers else int(os.environ.get("VERIF_TLC_WORKERS", min(16, os.cpu_count() or 4))))
         cmd = ["java", "-XX:+UseG1GC", "-Xss256m", "-Xmx%s" % (heap or "8g")]
         cmd += ["-cp", TLA_CP, "tlc2.TLC", "-workers", w, "-metadir", os.path.join(wd, "meta"),
                 "-config", cfg, "-noGenerateSpecTE"]
